@@ -53,13 +53,15 @@ type Gen struct {
 	// Prepop: Parse cases only, into a fully populated destination
 	Prepop bool
 	// Pre: wrap nodes below the top level in Preprocess schemas written for the case's mode
-	Pre  bool
-	mode string
+	Pre        bool
+	mode       string
 	forcedElem *Node
 	// Coercers: install named custom coercers (WithCoercer) on some primitives / slices
 	Coercers bool
 	// TopAll: custom and Preprocess schemas also at the top level
 	TopAll bool
+	// Deep: schema trees up to depth 7 (paths of 6 and more segments), narrow below the top
+	Deep bool
 	// NestedDefaults: slices of slices with a nested Default, and PostTransforms that modify the first leaf of
 	// the destination IN PLACE (kind incdeep)
 	NestedDefaults bool
@@ -142,7 +144,11 @@ func (g *Gen) fnTest() TestSpec {
 	if r.P(1, 6) {
 		rem = mod // never satisfied
 	}
-	return TestSpec{ID: g.id(), Name: "fn", N: mod, R: rem, Opts: g.topts(), Reuse: r.P(1, 3)}
+	t := TestSpec{ID: g.id(), Name: "fn", N: mod, R: rem, Opts: g.topts(), Reuse: r.P(1, 3)}
+	if !t.Reuse {
+		t.Raw = r.P(1, 3)
+	}
+	return t
 }
 
 func (g *Gen) smallInt() int64 {
@@ -347,6 +353,9 @@ func (g *Gen) Node(depth int) *Node {
 	}
 	if depth == 0 {
 		kind = rng.Pick(r, []string{"struct", "struct", "struct", "struct", "struct", "slice", "slice", "ptr", "prim", "prim"})
+	} else if g.Deep && depth < 6 {
+		// long paths: chains of structs and slices
+		kind = rng.Pick(r, []string{"struct", "struct", "struct", "slice", "slice", "ptr", "prim"})
 	} else if depth >= 3 {
 		kind = rng.Pick(r, []string{"prim", "prim", "prim", "prim", "custom"})
 	} else {
@@ -550,6 +559,9 @@ func (g *Gen) NodeOf(kind string, depth int) *Node {
 		}
 	case "struct":
 		nf := r.Range(1, 4)
+		if g.Deep && depth >= 1 {
+			nf = r.Range(1, 2)
+		}
 		perm := make([]int, len(keyPool))
 		for i := range perm {
 			perm[i] = i
@@ -715,6 +727,9 @@ func (g *Gen) Input(n *Node) V {
 			return VStr("zz")
 		}
 		k := rng.Pick(r, []int{0, 1, 2, 2, 3, 4})
+		if g.Deep {
+			k = rng.Pick(r, []int{2, 2, 3})
+		}
 		out := V{K: "l"}
 		for i := 0; i < k; i++ {
 			out.L = append(out.L, g.Input(n.Elem))
